@@ -4,6 +4,7 @@ use crate::description::Description;
 use crate::directive::Directive;
 use crate::directive::DirectiveLocation;
 use crate::name::Name;
+use crate::selection_set::Selection;
 use crate::selection_set::SelectionSet;
 use crate::ty::Ty;
 use crate::DocumentBuilder;
@@ -196,7 +197,24 @@ impl DocumentBuilder<'_> {
         };
         let directives = self.directives(DirectiveLocation::Field)?;
 
-        let selection_set = if !chosen_field_def.ty.is_builtin() {
+        let is_union = self
+            .union_type_defs
+            .iter()
+            .any(|union_ty_def| &union_ty_def.name == chosen_field_def.ty.name());
+        let selection_set = if is_union {
+            // A union has no fields of its own: select the one meta-field every
+            // composite type has.
+            // TODO: also generate inline fragments on the member types
+            Some(SelectionSet {
+                selections: vec![Selection::Field(Field {
+                    alias: None,
+                    name: Name::new(String::from("__typename")),
+                    args: Vec::new(),
+                    directives: IndexMap::new(),
+                    selection_set: None,
+                })],
+            })
+        } else if !chosen_field_def.ty.is_builtin() {
             // Put current ty on the stack
             if self.stack_ty(&chosen_field_def.ty) {
                 let res = Some(self.selection_set()?);
